@@ -52,7 +52,7 @@ def optRecord (toks : Array String) : String := Id.run do
   let req := iv[0]!; let algCode := iv[1]!; let n := iv[2]!; let nEq := iv[3]!; let nIneq := iv[4]!
   let hasLim := iv[5]! != 0; let numGrad := iv[6]! != 0; let numJac := iv[7]! != 0; let method := iv[8]!
   let ptype := iv[9]!; let status := iv[10]!; let nEval := iv[11]!; let nObj := iv[12]!; let nGrad := iv[13]!
-  let _nCon := iv[14]!; let nJac := iv[15]!; let nLog := iv[16]!; let forceFail := iv[19]!; let haveStar := iv[17]! != 0 && forceFail != 2
+  let _nCon := iv[14]!; let nJac := iv[15]!; let nLog := iv[16]!; let forceFail := iv[19]!; let haveStar := iv[17]! != 0 && forceFail != 2 && forceFail != 3
   let nc := nEq + nIneq
   let (tolF_, c) := c.flt; let (ctolF, c) := c.flt; let (cRF, c) := c.flt; let (accF, c) := c.flt
   let (Lf, c) := c.flts (n * n); let (bf, c) := c.flts n
